@@ -353,7 +353,12 @@ static void load_corpus() {
 		g_corpus.push_back(c);
 	}
 	g_ntest = g_corpus.size();
-	if (!g_featdir.empty()) load_dir(g_featdir, "feat:", "feat/", ".c", g_corpus);
+	if (!g_featdir.empty()) {
+		// features larger than 2 KiB are sampled like cproc's own sources; the single-fault spaces stay small
+		std::vector<CorpusEntry> feats;
+		load_dir(g_featdir, "feat:", "feat/", ".c", feats);
+		for (auto &c : feats) (c.data.size() > 2048 ? g_own : g_corpus).push_back(c);
+	}
 	if (!g_owndir.empty()) load_dir(g_owndir, "own:", "own/", ".i", g_own);
 }
 
@@ -608,7 +613,7 @@ static uint64_t space_size_for(const std::string &name, size_t ci) {
 	set_corpus(p, ci, dummy, false);
 	if (name == "trunc") return c.data.size();
 	if (name == "flip") return c.data.size() * 8;
-	if (name == "alloc") return probe_counts(p).nalloc + 1;
+	if (name == "alloc") return std::min<uint64_t>(probe_counts(p).nalloc + 1, 4000);  // bounded: an input that allocates without end must not square the sweep
 	if (name == "read") return probe_counts(p).nread;
 	if (name == "write") {
 		uint64_t n = 0;
